@@ -113,8 +113,7 @@ def value_json(value, indent=None):
         result = _JSONEncoder(allow_nan=False, indent=indent, separators=(',', ': '), sort_keys=True).encode(value)
     else:
         result = _JSON_ENCODER_DEFAULT.encode(value)
-    result = _R_VALUE_JSON_NUMBER_CLEANUP.sub(r'', result)
-    return _R_VALUE_JSON_NUMBER_CLEANUP2.sub(r'\1', result)
+    return _R_VALUE_JSON_NUMBER_CLEANUP.sub(r'\1', result)
 
 
 class _JSONEncoder(json.JSONEncoder):
@@ -130,8 +129,8 @@ class _JSONEncoder(json.JSONEncoder):
 
 _JSON_ENCODER_DEFAULT = _JSONEncoder(allow_nan=False, separators=(',', ':'), sort_keys=True)
 
-_R_VALUE_JSON_NUMBER_CLEANUP = re.compile(r'\.0*$', re.MULTILINE)
-_R_VALUE_JSON_NUMBER_CLEANUP2 = re.compile(r'\.0*([,}\]])')
+# Match (and keep) whole string tokens so that the number cleanup is never applied to string content
+_R_VALUE_JSON_NUMBER_CLEANUP = re.compile(r'("(?:\\.|[^"\\])*")|\.0*(?=[,}\]\s]|$)')
 
 
 def value_boolean(value):
